@@ -136,6 +136,38 @@ static JanetSlot janetc_unquote(JanetFopts opts, int32_t argn, const Janet *argv
     return janetc_cslot(janet_wrap_nil());
 }
 
+static int destructure(JanetCompiler *c,
+                       Janet left,
+                       JanetSlot right,
+                       int (*leaf)(JanetCompiler *c,
+                                   const uint8_t *sym,
+                                   JanetSlot s,
+                                   JanetTable *attr),
+                       JanetTable *attr);
+
+/* Destructure a nested pattern. Charged against the compiler's recursion
+ * guard so that a deeply nested pattern is a compile error instead of a
+ * C stack overflow. */
+static int destructure_nested(JanetCompiler *c,
+                              Janet left,
+                              JanetSlot right,
+                              int (*leaf)(JanetCompiler *c,
+                                          const uint8_t *sym,
+                                          JanetSlot s,
+                                          JanetTable *attr),
+                              JanetTable *attr) {
+    int ret;
+    c->recursion_guard--;
+    if (c->recursion_guard <= 0) {
+        c->recursion_guard++;
+        janetc_cerror(c, "recursed too deeply");
+        return 1;
+    }
+    ret = destructure(c, left, right, leaf, attr);
+    c->recursion_guard++;
+    return ret;
+}
+
 /* Perform destructuring. Be careful to
  * keep the order registers are freed.
  * Returns if the slot 'right' can be freed. */
@@ -233,7 +265,7 @@ static int destructure(JanetCompiler *c,
                     JanetSlot k = janetc_cslot(janet_wrap_integer(i));
                     janetc_emit_sss(c, JOP_IN, nextright, right, k, 1);
                 }
-                if (destructure(c, subval, nextright, leaf, attr))
+                if (destructure_nested(c, subval, nextright, leaf, attr))
                     janetc_freeslot(c, nextright);
             }
         }
@@ -248,7 +280,7 @@ static int destructure(JanetCompiler *c,
                 JanetSlot nextright = janetc_farslot(c);
                 JanetSlot k = janetc_value(janetc_fopts_default(c), kvs[i].key);
                 janetc_emit_sss(c, JOP_IN, nextright, right, k, 1);
-                if (destructure(c, kvs[i].value, nextright, leaf, attr))
+                if (destructure_nested(c, kvs[i].value, nextright, leaf, attr))
                     janetc_freeslot(c, nextright);
             }
         }
